@@ -19,6 +19,8 @@ import warnings
 from fractions import Fraction
 
 from harness.pymath2coq import TARGETS, SIZES
+from harness import math_shim as sh
+from harness.math_shim import Ang, Deg, enc, dec
 
 SHAPES = {k: (cls, name, shapes) for k, cls, name, shapes in TARGETS}
 TRIG = {'Vec2.from_polar', 'Vec2.heading', 'Vec2.from_heading', 'Vec2.rotate'}
@@ -27,7 +29,8 @@ ROOT = {'%s.%s' % (c, m) for c in ('Vec2', 'Vec3', 'Vec4')
         for m in ('__abs__', 'distance', 'normalize')} | {
     'Vec2.mag', 'Vec3.mag', 'Vec2.from_magnitude', 'Vec3.from_magnitude',
     'Vec2.limit', 'Vec3.limit'}
-EXACT_KEYS = [k for k, _, _, _ in TARGETS if k not in TRIG]
+EXACT_KEYS = [k for k, _, _, _ in TARGETS if k not in sh.FLOAT_ONLY]
+SHIM_ALWAYS = sh.ANGLE_KEYS | {'Mat4.look_at'}
 
 
 def arity(key):
@@ -105,6 +108,8 @@ def call_real(key, xs):
 
 
 def exact(x):
+    if isinstance(x, Ang):
+        return x
     if isinstance(x, bool) or not isinstance(x, (int, float, Fraction)):
         raise TypeError('not a number: %r' % (x,))
     if isinstance(x, float) and (x != x or x in (float('inf'), float('-inf'))):
@@ -152,6 +157,8 @@ def py_spec(key, xs, out, warned, tol=Fraction(0)):
         return len(a) == len(b) and all(eq(x, y) for x, y in zip(a, b))
 
     cls, name, shapes = SHAPES[key]
+    if key in sh.SECOND:
+        return sh.spec2(key, xs, out, warned)
     if key == 'clamp':
         x, lo, hi = xs
         return (not warned) and eqs(out, [max(min(x, hi), lo)])
@@ -324,6 +331,8 @@ def rnd_mat(rng, n):
 def gen_inputs(key, rng):
     """exact inputs on which the real code computes exactly (see RULE in c18.py)"""
     cls, name, shapes = SHAPES[key]
+    if key in sh.SECOND:
+        return sh.gen2(key, rng)
     if key == 'clamp':
         return [rnd_q(rng) for _ in range(3)]
     if cls in ('Vec2', 'Vec3', 'Vec4'):
@@ -392,6 +401,36 @@ def gen_inputs(key, rng):
     return xs
 
 
+def gen_root_shim(key, rng):
+    """sqrt methods under the scripted math: any vector of rational length"""
+    cls, name, shapes = SHAPES[key]
+    n = SIZES[cls]
+    k = Fraction(rng.choice((1, 2, 3, 5)), rng.choice((1, 2, 3, 7)))
+    v = _signed_perm(rng, rng.choice(PYTH[n]), k)
+    if name == 'distance':
+        a = [rnd_q(rng) for _ in range(n)]
+        return a + [x + y for x, y in zip(a, v)]
+    if name == 'from_magnitude':
+        return v + [rnd_q(rng)]
+    if name == 'limit':
+        r = sh.exact_root(_dot(v, v))
+        m = rng.choice((r, r * Fraction(rng.randint(0, 7), 4), abs(rnd_q(rng))))
+        return v + [m]
+    return v
+
+
+def gen_case(key, rng):
+    """one case: method, encoded inputs, whether the run uses the scripted math"""
+    shim = key in SHIM_ALWAYS
+    if key in ROOT and rng.random() < 0.45:
+        shim = True
+        xs = gen_root_shim(key, rng)
+    else:
+        xs = gen_inputs(key, rng)
+    assert in_domain(key, xs, shim), (key, xs, shim)
+    return {'m': key, 'args': [enc(x) for x in xs], 'shim': shim}
+
+
 def _pow2(n):
     return n > 0 and n & (n - 1) == 0
 
@@ -408,11 +447,25 @@ def _root(s):
     return Fraction(a, b) if a * a == s.numerator and b * b == s.denominator else None
 
 
-def in_domain(key, xs):
-    """inputs on which the binary64 arithmetic of the real code is exact, so
-    that its result can be compared exactly (the generator only produces
-    such inputs; shrinking and mutation must stay inside)"""
+def in_domain(key, xs, shim=False):
+    """inputs on which the arithmetic of the real code is exact (binary64, or
+    the scripted math when shim), so that its result can be compared exactly
+    (the generator only produces such inputs; shrinking and mutation must
+    stay inside)"""
     cls, name, shapes = SHAPES[key]
+    if key in sh.SECOND:
+        if any(isinstance(x, (Ang, Deg)) for x in xs) != (key in sh.ANGLE_KEYS
+                                                           and key != 'Vec2.heading'):
+            return False
+        return sh.dom2(key, xs)
+    if shim and key in ROOT:
+        n = SIZES[cls]
+        a = xs[:n]
+        if name == 'distance':
+            a = [x - y for x, y in zip(xs[:n], xs[n:])]
+        if name == 'limit' and xs[n] < 0:
+            return False
+        return _root(_dot(a, a)) is not None
     if key == 'Mat4.orthogonal_projection':
         return all(x[1] != x[0] and _pow2(abs(x[1] - x[0]).numerator)
                    and _pow2(abs(x[1] - x[0]).denominator) for x in (xs[0:2], xs[2:4], xs[4:6]))
@@ -435,14 +488,22 @@ def in_domain(key, xs):
     return r == 0 or (_pow2(r.numerator) and _pow2(r.denominator))
 
 
-def observe(key, xs):
-    """run the real code; -> dict(out=[[n, d]..], warn=bool, cls=str) or dict(exc=...)"""
+def observe(key, xs, shim=False):
+    """run the real code; -> dict(out=[[n, d]..], warn=bool, cls=str) or dict(exc=...).
+    shim: desper.math's `_math` global is replaced by the exact double for
+    the duration of the call."""
+    M = _mod()
+    real = M._math
     try:
+        if shim:
+            M._math = sh.Shim
         out, w, rcls = call_real(key, xs)
         out = [exact(x) for x in out]
     except Exception as ex:              # an observation, not a harness bug
         return {'exc': '%s: %s' % (type(ex).__name__, str(ex)[:120])}
-    return {'out': [[x.numerator, x.denominator] for x in out], 'warn': w, 'cls': rcls}
+    finally:
+        M._math = real
+    return {'out': [enc(x) for x in out], 'warn': w, 'cls': rcls}
 
 
 # ------------------------------------------------------------ sub-commands
@@ -513,23 +574,34 @@ def float_ok(key, xs, out, tol=1e-9):
     return None
 
 
+def float_case(key, rng):
+    return sh.float2_inputs(key, rng) if key in sh.FLOAT2 else float_inputs(key, rng)
+
+
+def float_check(key, xs):
+    """-> (ok, printable result) for one float input"""
+    try:
+        out, w, _ = call_real(key, xs)
+        out = [float(x) for x in out]
+        ok = (sh.float2_ok(key, xs, out) if key in sh.FLOAT2 else float_ok(key, xs, out))
+        return bool(ok) and not w, [repr(x) for x in out]
+    except Exception as ex:
+        return False, ['%s: %s' % (type(ex).__name__, str(ex)[:80])]
+
+
+FLOAT_KEYS = sorted(ROOT | TRIG) + sh.FLOAT2
+
+
 def cmd_floats(seed, n):
     rng = random.Random(seed)
-    keys = sorted(ROOT | TRIG)
     res = {'tested': {}, 'failures': []}
-    for key in keys:
-        cnt = 0
+    for key in FLOAT_KEYS:
         for _ in range(n):
-            xs = float_inputs(key, rng)
-            try:
-                out, w, _ = call_real(key, xs)
-                ok = float_ok(key, xs, [float(x) for x in out]) and not w
-            except Exception as ex:
-                ok, out = False, ['%s' % type(ex).__name__]
-            cnt += 1
+            xs = float_case(key, rng)
+            ok, out = float_check(key, xs)
             if not ok and len(res['failures']) < 5:
-                res['failures'].append({'m': key, 'args': xs, 'out': [repr(x) for x in out]})
-        res['tested'][key] = cnt
+                res['failures'].append({'m': key, 'args': xs, 'out': out})
+        res['tested'][key] = n
     return res
 
 
@@ -562,6 +634,18 @@ def swizzle_codes(cls, letters, foreign):
     return codes
 
 
+def judge(case):
+    """run one case on the real code and compare with the Python oracle"""
+    key = case['m']
+    xs = [dec(p) for p in case['args']]
+    ob = observe(key, xs, case.get('shim', False))
+    if 'exc' in ob:
+        return ob, False
+    out = [dec(p) for p in ob['out']]
+    tol = Fraction(1, 10 ** 9) if (key in ROOT and not case.get('shim')) else Fraction(0)
+    return ob, py_spec(key, xs, out, ob['warn'], tol) is not False
+
+
 def cmd_search(seed, n, keys):
     """random exact inputs -> first input on which the real code's result is not
     the textbook one (also: raises, or is not exact where it should be)"""
@@ -570,54 +654,38 @@ def cmd_search(seed, n, keys):
     tried = 0
     for rnd in range(n):
         for key in keys:
-            if key in TRIG:
+            if key in sh.FLOAT_ONLY:
                 continue
-            xs = gen_inputs(key, rng)
+            case = gen_case(key, rng)
             tried += 1
-            ob = observe(key, xs)
-            bad = 'exc' in ob
-            if not bad:
-                out = [Fraction(a, b) for a, b in ob['out']]
-                ok = py_spec(key, xs, out, ob['warn'],
-                             Fraction(1, 10 ** 9) if key in ROOT else Fraction(0))
-                bad = ok is False
-            if bad:
-                return {'tried': tried, 'case': {'m': key, 'args': [[x.numerator, x.denominator]
-                                                                   for x in xs]}, 'trace': ob}
-    # float inputs for the operations with roots and angles
-    for rnd in range(n):
-        for key in sorted((ROOT | TRIG) & set(keys) if keys != EXACT_KEYS else ROOT | TRIG):
-            xs = float_inputs(key, rng)
-            tried += 1
-            try:
-                out, w, _ = call_real(key, xs)
-                ok = float_ok(key, xs, [float(x) for x in out]) and not w
-            except Exception as ex:
-                ok, out = False, [type(ex).__name__]
+            ob, ok = judge(case)
             if not ok:
-                fr = [Fraction(x) for x in xs]
+                return {'tried': tried, 'case': case, 'trace': ob}
+    # float inputs for the operations with roots and angles
+    fkeys = [k for k in FLOAT_KEYS if keys == EXACT_KEYS or k in keys]
+    for rnd in range(n):
+        for key in fkeys:
+            xs = float_case(key, rng)
+            tried += 1
+            ok, out = float_check(key, xs)
+            if not ok:
                 return {'tried': tried, 'float': True,
-                        'case': {'m': key, 'args': [[x.numerator, x.denominator] for x in fr]},
-                        'trace': {'float_args': xs, 'out': [repr(x) for x in out]}}
+                        'case': {'m': key, 'float_args': xs},
+                        'trace': {'float_args': xs, 'out': out}}
     return {'tried': tried, 'case': None}
 
 
 def cmd_replay(case):
-    key = case['m']
-    xs = [Fraction(a, b) for a, b in case['args']]
-    ob = observe(key, xs)
-    if 'exc' in ob:
-        return {'trace': ob, 'ok': False}
-    out = [Fraction(a, b) for a, b in ob['out']]
-    if key in TRIG:
-        fx = [float(x) for x in xs]
-        o, w, _ = call_real(key, fx)
-        return {'trace': ob, 'ok': bool(float_ok(key, fx, [float(x) for x in o])) and not w}
-    ok = py_spec(key, xs, out, ob['warn'], Fraction(1, 10 ** 9) if key in ROOT else Fraction(0))
-    if ok and key in ROOT:
-        fx = [float(x) for x in xs]
-        o, w, _ = call_real(key, fx)
-        ok = bool(float_ok(key, fx, [float(x) for x in o])) and not w
+    if 'float_args' in case:
+        ok, out = float_check(case['m'], case['float_args'])
+        return {'trace': {'out': out}, 'ok': ok}
+    ob, ok = judge(case)
+    if ok and case['m'] in FLOAT_KEYS:
+        rng = random.Random(0)
+        for _ in range(200):
+            fok, out = float_check(case['m'], float_case(case['m'], rng))
+            if not fok:
+                return {'trace': ob, 'ok': False, 'float_out': out}
     return {'trace': ob, 'ok': bool(ok)}
 
 
